@@ -561,3 +561,17 @@ def c04_9(ctx: Ctx) -> RuleResult:
         i.rule = "C04.9"
     r.rule, r.title = "C04.9", "the CVaR filter sees every failed realization as failed: a NaN in any objective or constraint is propagated to the column its failure test reads"
     return r
+
+
+@rule(P)
+def c04_10(ctx: Ctx) -> RuleResult:
+    """Shared with C16.3."""
+    from .c16 import c16_3
+
+    r = c16_3(ctx)
+    r.instances = [i for i in r.instances if "realization_filter" in (i.where or "") or "realization_filter" in (i.func or "") or "realization_filter" in (i.construct or "")] or r.instances[:1]
+    r.floor = 1
+    for i in r.instances:
+        i.rule = "C04.10"
+    r.rule, r.title = "C04.10", "every evaluator gets filters built from its own configuration: the filter factory and plug-in objects keep no state between calls"
+    return r
